@@ -13,6 +13,9 @@ type fileStorage struct {
 	dirPath string
 }
 
+// tempFileSuffix is appended to the name of a file while it is written.
+const tempFileSuffix = ".tmp"
+
 // NewTempFileStorage returns a new storage inside temporary folder.
 func NewTempFileStorage() (Storage, error) {
 	dir := RandomHexString()
@@ -34,17 +37,30 @@ func NewFileStorage(dir string) (Storage, error) {
 }
 
 // Set sets the value for a specific key.
+//
+// The value is written to a temporary file in the same directory which then
+// replaces the file for key. The stored value is therefore always either the
+// previous or the new one, even if the process is killed while writing.
 func (f *fileStorage) Set(key string, value []byte) error {
-	file, err := f.fileForWrite(key)
+	path := f.filePathToFile(key)
+	tmpPath := path + tempFileSuffix
 
+	file, err := f.fileForWrite(tmpPath)
 	if err != nil {
 		return err
 	}
 
-	defer file.Close()
-
 	_, err = file.Write(value)
-	return err
+	if cerr := file.Close(); err == nil {
+		err = cerr
+	}
+
+	if err != nil {
+		os.Remove(tmpPath)
+		return err
+	}
+
+	return os.Rename(tmpPath, path)
 }
 
 // Get returns the value for a specific key.
@@ -100,8 +116,8 @@ func (f *fileStorage) filePathToFile(file string) string {
 	return filepath.Join(f.dir(), fname)
 }
 
-func (f *fileStorage) fileForWrite(key string) (*os.File, error) {
-	return os.OpenFile(f.filePathToFile(key), os.O_WRONLY|os.O_CREATE, 0666)
+func (f *fileStorage) fileForWrite(path string) (*os.File, error) {
+	return os.OpenFile(path, os.O_WRONLY|os.O_CREATE|os.O_TRUNC, 0666)
 }
 
 func (f *fileStorage) fileForRead(key string) (*os.File, error) {
